@@ -8,7 +8,7 @@ HARNESS_MODS = ['rp']
 RULE = ('cases: rp.corrupt 1 mem16 style blocksize l:bits h:frame l:verdicts - the valid serial frame with the listed bits flipped (bit i = bit i%8, least '
         'significant first, of octet i/8) is SLIP-framed, received and processed; obs as rp.serve (return code, error id, parsed frame, backend calls, reply, '
         'ledger). Predicate on the implementation\'s observation: a damaged frame is a channel error or carries error id EBADMSG/EILSEQ/EFAULT/EPROTO and causes no '
-        'backend call. Corpus of fifteen frames (read/write requests 8/16 bit, acknowledgements with and without payload, error responses with and without payload, '
+        'backend call. Also: correctly checksummed frames whose block-size field is k + 2^b or k - 2^b for every b while k words are carried (both word sizes, every checksum option). Corpus of fifteen frames (read/write requests 8/16 bit, acknowledgements with and without payload, error responses with and without payload, '
         'meta; frames whose stored payload / header checksum is 0x0000 or 0xffff): every single-bit flip, two-bit flips outside the first word (all pairs for the short frames, sampled for long ones in the quick tier), bursts of '
         'length 2..16 at every bit offset >= 16 (end bits set; interior all-ones, all-zeros, random; every interior for the bursts crossing a field boundary of the '
         'header up to length 12 quick / 16 thorough), every truncation length, extensions by 1..4 octets.  rp.serve cases: frames with every combination of the '
@@ -85,7 +85,20 @@ def gen(rng, tier):
         for k in range(1, 5):
             for _ in range(3):
                 yield 'rp.corrupt 1 %d %d 128 l: %s %s' % (mem16, rng.randrange(2), hexs(raw + [rng.choice([0, 0xff, rng.randrange(256)]) for _ in range(k)]), lst(verdicts(rng, 1)))
-    yield from gen_serve_opts(rng, 8000 if big else 800)
+    yield from with_lending(gen_serve_opts(rng, 8000 if big else 800))
+    # correctly checksummed frames whose block-size field exceeds the payload by a power of two (k + 2^b words announced, k carried):
+    # implausible for every b, also where 2 * blocksize or a narrowed blocksize wraps back to the carried size
+    for ftype in (2, 1):
+        for opts in (0, 1, 2, 3, 6, 7):
+            w16 = opts & 1
+            for k in (0, 1, 2, 3):
+                for b in range(0, 32):
+                    for bsize in (k + (1 << b), (k - (1 << b)) % 2**32):
+                        if bsize == k:
+                            continue
+                        pl = [rng.randrange(256) for _ in range(k * (2 if w16 else 1))]
+                        raw = raw_frame(ftype, opts, 0, rng.randrange(65536), rng.choice([0x20, 0x64]), bsize, pl)
+                        yield 'rp.corrupt 1 %d %d 128 l: %s %s' % (w16, rng.randrange(2), hexs(raw), lst(verdicts(rng, 1)))
 
 def violates(case, obs):
     if not case.startswith('rp.corrupt '):
